@@ -30,6 +30,20 @@ CLAIMED = {
         'technique': 'Lean 4 proof (loop invariant by induction on fuel) + differential correspondence of reduce() form',
         'design_ref': '§5 C07',
     },
+    'C02': {
+        'text': ('Lean theorems: for every operand kind (plain, composition, sum, identity, scalar, lazy inverse, block) '
+                 'A@B, A+B, k*A, A*k, A/k, -A, +A denote the product, sum and scalar multiples of the operands\' maps with '
+                 'the structures of the result, including every construction-time shortcut (flattening on either side, '
+                 'identity absorption, scalar merging, A.I@A and A@A.I); incompatible structures are rejected. Which '
+                 'function each dunder resolves to for each class, and the class hierarchy the model tests, are '
+                 're-checked by the kernel against tables regenerated from the source.  Each step of random expression '
+                 'trees is compared between executable model and implementation; dense-matrix oracle on the implementation.'),
+        'note': ('Trusted: Lean kernel + standard axioms; encoder/translator; ArithSem laws (composition denotes the '
+                 'composite, sums add, a lazy inverse of an invertible operand inverts — F13 is the failure of this law for '
+                 'singular diagonals and is a listed known finding of C01).  Negation of a sum is checked differentially only.'),
+        'technique': 'Lean 4 proof (case analysis over the dunder dispatch) + kernel-checked source tables + differential correspondence',
+        'design_ref': '§5 C02',
+    },
 }
 
 ALL = [f'C{i:02d}' for i in range(1, 21)]
